@@ -290,6 +290,10 @@ def hexStr (x : Bytes) : List Nat := x.flatMap fun b => [hexDigit (b.toNat / 16)
 /-- `bytes(n)`: `n` zero bytes, ValueError for a negative `n` -/
 def zerosE (n : Int) : Except Err Bytes := if n < 0 then .error .value else .ok (List.replicate n.toNat 0)
 
+/-- `d.update(other)`: the entries of `other` in their order (an existing key keeps its place and gets the value) -/
+def tableUpdate {κ ν : Type} [DecidableEq κ] (t other : List (κ × ν)) : List (κ × ν) :=
+  other.foldl (fun acc e => tableSet acc e.1 e.2) t
+
 /-- `s.add(x)` on a set kept as a list without duplicates (a set is only ever asked `in`) -/
 def setAdd {α : Type} [DecidableEq α] (s : List α) (x : α) : List α := if x ∈ s then s else s ++ [x]
 
